@@ -199,7 +199,14 @@ def run_pool(modname, jobs, tier, seed, replay_dir, njobs, verbose):
     reports = []
     probing = {}
     t_start = time.time()
-    hard = float(os.environ.get('VERIF_DEADLINE', '0') or 0) or (3300.0 if tier == 'thorough' else 840.0)
+    # load at the start of the run relative to the number of cores (1 = idle or fully used by this run alone; capped at 4)
+    if 'VERIF_TIME_SCALE' not in os.environ:
+        try:
+            os.environ['VERIF_TIME_SCALE'] = '%.2f' % max(1.0, min(4.0, os.getloadavg()[0] / max(1, os.cpu_count() or 1)))
+        except OSError:
+            os.environ['VERIF_TIME_SCALE'] = '1'
+    tscale = float(os.environ['VERIF_TIME_SCALE'])
+    hard = float(os.environ.get('VERIF_DEADLINE', '0') or 0) or (3300.0 if tier == 'thorough' else 840.0) * tscale
     while pending or running:
         if time.time() - t_start > hard:
             # global wall-clock limit of one check run: what is left is undecided, never a violation
@@ -224,6 +231,7 @@ def run_pool(modname, jobs, tier, seed, replay_dir, njobs, verbose):
             limit = getattr(inst, 'wall', None) or (inst.timeout * 12 + 90)
             if tier == 'thorough':
                 limit *= 4
+            limit *= tscale
             running[p.pid] = (p, pc, inst, time.time() + limit, time.time())
         done = []
         for pid, (p, pc, inst, deadline, started) in running.items():
